@@ -80,6 +80,25 @@ func NewAgent(name string, h *simnet.Host, start time.Time, opts ...ice.AgentOpt
 	if err != nil {
 		return nil, err
 	}
+	return wrapAgent(name, h, start, a, uf, pw), nil
+}
+
+// NewAgentFromConfig builds the agent through the AgentConfig constructor (ice.NewAgent) instead of options;
+// the rig fills in the simulated network, the quiet logger, the credentials and the mDNS mode.
+func NewAgentFromConfig(name string, h *simnet.Host, start time.Time, cfg *ice.AgentConfig) (*AgentH, error) {
+	uf, pw := Creds(name, 0)
+	cfg.Net = h.Net()
+	cfg.LoggerFactory = Quiet()
+	cfg.MulticastDNSMode = ice.MulticastDNSModeDisabled
+	cfg.LocalUfrag, cfg.LocalPwd = uf, pw
+	a, err := ice.NewAgent(cfg)
+	if err != nil {
+		return nil, err
+	}
+	return wrapAgent(name, h, start, a, uf, pw), nil
+}
+
+func wrapAgent(name string, h *simnet.Host, start time.Time, a *ice.Agent, uf, pw string) *AgentH {
 	ah := &AgentH{Name: name, A: a, Host: h, Ufrag: uf, Pwd: pw, start: start}
 	_ = a.OnConnectionStateChange(func(s ice.ConnectionState) {
 		ah.mu.Lock()
@@ -129,7 +148,7 @@ func NewAgent(name string, h *simnet.Host, start time.Time, opts ...ice.AgentOpt
 		ah.inPair--
 		ah.mu.Unlock()
 	})
-	return ah, nil
+	return ah
 }
 
 // CandAddr renders a candidate's transport address "net/ip:port".
